@@ -258,3 +258,54 @@ Lemma value_rejects_unknown_escape nm attrs k acc d rest : unesc_char d = None -
 Proof. intro H. cbn [run_sm step N.eqb Pos.eqb]. rewrite H. reflexivity. Qed.
 Lemma nothing_after_bracket nm attrs c rest : run_sm (MDone nm attrs) (c :: rest) = None.
 Proof. reflexivity. Qed.
+
+(* ---- the converse for values: whatever the machine accepts between two quotes is a well-formed escaped value and is decoded
+   as tc_unescape decodes it (so an accepted value never contains a raw ' [ ] CR LF and never ends in a lone |) *)
+Lemma val_run_inv_len n : forall l, (length l <= n)%nat -> forall nm attrs k acc mfin,
+  run_sm (MVal nm attrs k acc) l = Some mfin ->
+  (exists v rest u, l = v ++ 39 :: rest /\ tc_unescape v = Some u /\ run_sm (MAfter nm ((k, rev acc ++ u) :: attrs)) rest = Some mfin)
+  \/ (exists u, tc_unescape l = Some u /\ mfin = MVal nm attrs k (rev u ++ acc))
+  \/ (exists v u, l = v ++ [124] /\ tc_unescape v = Some u /\ mfin = MEsc nm attrs k (rev u ++ acc)).
+Proof.
+  induction n as [|n IH]; intros l Hl nm attrs k acc mfin H.
+  - destruct l; [|cbn in Hl; lia]. cbn in H. injection H as <-. right. left. exists []. split; reflexivity.
+  - destruct l as [|c r].
+    { cbn in H. injection H as <-. right. left. exists []. split; reflexivity. }
+    cbn [run_sm step] in H.
+    destruct (N.eqb_spec c 39) as [->|H39].
+    { left. exists [], r, []. rewrite app_nil_r. repeat split. exact H. }
+    destruct (N.eqb_spec c 124) as [->|H124].
+    + destruct r as [|d r'].
+      { cbn in H. injection H as <-. right. right. exists [], []. repeat split. }
+      cbn [run_sm step] in H. destruct (unesc_char d) as [x|] eqn:Ed; [|discriminate H].
+      destruct (IH r' ltac:(cbn in Hl; lia) nm attrs k (x :: acc) mfin H) as [[v [rest [u [E [Hu Hr]]]]] | [[u [Hu E]] | [v [u [E [Hu Em]]]]]].
+      * left. exists (124 :: d :: v), rest, (x :: u). subst r'. repeat split.
+        -- cbn [tc_unescape N.eqb Pos.eqb]. rewrite Ed, Hu. reflexivity.
+        -- cbn [rev] in Hr. rewrite <- app_assoc in Hr. exact Hr.
+      * right. left. exists (x :: u). split.
+        -- cbn [tc_unescape N.eqb Pos.eqb]. rewrite Ed, Hu. reflexivity.
+        -- subst mfin. cbn [rev]. rewrite <- app_assoc. reflexivity.
+      * right. right. exists (124 :: d :: v), (x :: u). subst r'. repeat split.
+        -- cbn [tc_unescape N.eqb Pos.eqb]. rewrite Ed, Hu. reflexivity.
+        -- subst mfin. cbn [rev]. rewrite <- app_assoc. reflexivity.
+    + destruct (raw_forbidden c) eqn:Ef; [discriminate H|].
+      assert (Hc : forall v u, tc_unescape v = Some u -> tc_unescape (c :: v) = Some (c :: u)).
+      { intros v u Hu. cbn [tc_unescape]. destruct (N.eqb_spec c 124); [contradiction|]. rewrite Ef, Hu. reflexivity. }
+      destruct (IH r ltac:(cbn in Hl; lia) nm attrs k (c :: acc) mfin H) as [[v [rest [u [E [Hu Hr]]]]] | [[u [Hu E]] | [v [u [E [Hu Em]]]]]].
+      * left. exists (c :: v), rest, (c :: u). subst r. repeat split.
+        -- apply Hc. exact Hu.
+        -- cbn [rev] in Hr. rewrite <- app_assoc in Hr. exact Hr.
+      * right. left. exists (c :: u). split; [apply Hc; exact Hu|]. subst mfin. cbn [rev]. rewrite <- app_assoc. reflexivity.
+      * right. right. exists (c :: v), (c :: u). subst r. repeat split; [apply Hc; exact Hu|]. subst mfin. cbn [rev]. rewrite <- app_assoc. reflexivity.
+Qed.
+
+Lemma accepted_value_wellformed nm attrs k l nm' attrs' :
+  run_sm (MVal nm attrs k []) l = Some (MDone nm' attrs') ->
+  exists v rest u, l = v ++ 39 :: rest /\ tc_unescape v = Some u /\ no_raw_special v = true
+                   /\ run_sm (MAfter nm ((k, u) :: attrs)) rest = Some (MDone nm' attrs').
+Proof.
+  intro H. destruct (val_run_inv_len (length l) l (le_n _) nm attrs k [] _ H) as [[v [rest [u [E [Hu Hr]]]]] | [[u [_ E]] | [v [u [_ [_ E]]]]]].
+  - exists v, rest, u. repeat split; [exact E | exact Hu | exact (unescape_some_no_raw v u Hu) | exact Hr].
+  - discriminate E.
+  - discriminate E.
+Qed.
